@@ -113,9 +113,9 @@ theorem form_omega_mat_general_isRot_laue (ω χ w : ℝ) :
 
 /-- C03: `detect_tilt tx ty tz = Rx tx · Ry ty · Rz tz`. -/
 theorem detect_tilt_eq (tx ty tz : ℝ) : Tools.detect_tilt tx ty tz = Rx tx * Ry ty * Rz tz := by
-  simp only [Tools.detect_tilt]
   ext i j; fin_cases i <;> fin_cases j <;>
-    simp [Rx, Ry, Rz, Matrix.mul_apply, Fin.sum_univ_three] <;> ring
+    simp [Tools.detect_tilt, Tools.form_omega_mat, Rx, Ry, Rz, Matrix.mul_apply, Fin.sum_univ_three] <;>
+    first | done | ring
 
 /-- C03: `detect_tilt` is a proper rotation. -/
 theorem detect_tilt_isRot (tx ty tz : ℝ) : IsRot (Tools.detect_tilt tx ty tz) := by
@@ -784,7 +784,9 @@ def eulerMat (c1 s1 K σ c2 s2 : ℝ) : Matrix (Fin 3) (Fin 3) ℝ :=
 
 lemma euler_to_u_eq_eulerMat (a b c : ℝ) : Tools.euler_to_u a b c =
     eulerMat (Real.cos a) (Real.sin a) (Real.cos b) (Real.sin b) (Real.cos c) (Real.sin c) := by
-  ext i j; fin_cases i <;> fin_cases j <;> simp [Tools.euler_to_u, eulerMat]
+  ext i j; fin_cases i <;> fin_cases j <;>
+    simp [Tools.euler_to_u, Tools.form_omega_mat, eulerMat, Matrix.mul_apply, Fin.sum_univ_three] <;>
+    first | done | ring
 
 lemma cos_wrap (t : ℝ) : Real.cos (wrap t) = Real.cos t := by
   unfold wrap; split_ifs <;> simp [Real.cos_add_two_pi]
@@ -1379,12 +1381,12 @@ theorem u_to_euler_euler_to_u_exact {φ1 Φ φ2 : ℝ}
   have hΦπ : Φ < Real.pi := by linarith [hΦ.2]
   have hσ : 0 < Real.sin Φ := Real.sin_pos_of_pos_of_lt_pi hΦ0 hΦπ
   have hacos : Real.arccos (Real.cos Φ) = Φ := Real.arccos_cos hΦ0.le hΦπ.le
-  have u22 : Tools.euler_to_u φ1 Φ φ2 2 2 = Real.cos Φ := by simp [Tools.euler_to_u]
-  have u02 : Tools.euler_to_u φ1 Φ φ2 0 2 = Real.sin φ1 * Real.sin Φ := by simp [Tools.euler_to_u]
+  have u22 : Tools.euler_to_u φ1 Φ φ2 2 2 = Real.cos Φ := by rw [euler_to_u_eq_eulerMat]; simp [eulerMat]
+  have u02 : Tools.euler_to_u φ1 Φ φ2 0 2 = Real.sin φ1 * Real.sin Φ := by rw [euler_to_u_eq_eulerMat]; simp [eulerMat]
   have u12 : -(Tools.euler_to_u φ1 Φ φ2 1 2) = Real.cos φ1 * Real.sin Φ := by
-    simp [Tools.euler_to_u]
-  have u20 : Tools.euler_to_u φ1 Φ φ2 2 0 = Real.sin φ2 * Real.sin Φ := by simp [Tools.euler_to_u]
-  have u21 : Tools.euler_to_u φ1 Φ φ2 2 1 = Real.cos φ2 * Real.sin Φ := by simp [Tools.euler_to_u]
+    rw [euler_to_u_eq_eulerMat]; simp [eulerMat]
+  have u20 : Tools.euler_to_u φ1 Φ φ2 2 0 = Real.sin φ2 * Real.sin Φ := by rw [euler_to_u_eq_eulerMat]; simp [eulerMat]
+  have u21 : Tools.euler_to_u φ1 Φ φ2 2 1 = Real.cos φ2 * Real.sin Φ := by rw [euler_to_u_eq_eulerMat]; simp [eulerMat]
   have key : ∀ φ : ℝ, 0 ≤ φ → φ < 2 * Real.pi →
       ¬ |Real.cos φ| < 1e-8 * max |Real.cos φ| |Real.sin φ| →
       ¬ |Real.sin φ| < 1e-8 * max |Real.cos φ| |Real.sin φ| →
